@@ -6,6 +6,8 @@ import (
 	"fmt"
 	"time"
 
+	"net/http/httptest"
+
 	"github.com/zeromicro/go-zero/core/breaker"
 
 	"verifsim/simrt"
@@ -90,6 +92,19 @@ type callRec struct {
 	ev           evKind
 	recLo, recHi stamp // the event was recorded somewhere in [recLo, recHi]
 
+	// second layer
+	servedBy        *ident
+	rec             *httptest.ResponseRecorder
+	wantCode        int
+	wantBody        string
+	l2err           error // what the wrapped handler / invoker / command returned
+	wantUnavailable bool
+	ctxChanged      bool
+	gotResp         any
+	wantResp        any
+	x               any // wrapper-specific observations (redis, sqlx)
+	cancel          func()
+
 	possThrottled bool // admitted; some consistent placement has the law's condition true at its decision
 	defThrottled  bool // admitted; every consistent placement has it true (and no accept in the window)
 }
@@ -112,6 +127,10 @@ type world struct {
 	firstDefThrottled int // logical instant (decEnd.s) of the earliest definitely-throttled admission; 0 = none
 
 	nRejected, nAdmitted int
+
+	// second layer
+	cur        map[int]*callRec // engine task id -> call in flight on that task
+	opensClass string
 }
 
 func (w *world) now() time.Duration { return time.Since(w.t0) }
@@ -125,6 +144,9 @@ func (p *plan) hasAcceptable() bool { return p.entry == entAcceptable || p.entry
 
 // success is the verdict of the acceptability predicate on the planned outcome.
 func (p *plan) success() bool {
+	if p.l2 {
+		return p.outcome == outOK || p.outcome == outAccErr
+	}
 	switch p.outcome {
 	case outOK:
 		return true
@@ -433,14 +455,15 @@ func (w *world) boundsAt(c *callRec) bounds {
 		}
 		possibly := e.recLo.s < c.decEnd.s && bucketOf(e.recHi.t) >= bLo-(nBuckets-1)
 		definitely := e.recHi.s < c.inv.s && bucketOf(e.recLo.t) >= bHi-(nBuckets-1)
-		if e.ev == evSucc {
+		switch {
+		case e.ev == evSucc:
 			if possibly {
 				bd.aMax++
 			}
 			if definitely {
 				bd.aMin++
 			}
-		} else {
+		default:
 			if possibly {
 				bd.nMax++
 			}
@@ -528,7 +551,9 @@ func (w *world) settle() {
 // checkAccounting compares the breaker's own window with the model at a quiescent point.
 func (w *world) checkAccounting(where string) {
 	r := w.r
-	if w.inflight != 0 || r.Failed() {
+	if w.inflight != 0 || r.Failed() || w.b == nil {
+		// w.b == nil: the wrapper keeps its breaker private (REST middleware); accounting is then
+		// only checked through behaviour
 		return
 	}
 	t1 := w.now()
@@ -555,14 +580,15 @@ func (w *world) checkAccounting(where string) {
 		if !definitely {
 			expired = true
 		}
-		if e.ev == evSucc {
+		switch {
+		case e.ev == evSucc:
 			if possibly {
 				bd.aMax++
 			}
 			if definitely {
 				bd.aMin++
 			}
-		} else {
+		default:
 			if possibly {
 				bd.nMax++
 			}
